@@ -2507,6 +2507,9 @@ impl StorageEngine {
                     
                     // Remove expired keys with write lock
                     if !expired_keys.is_empty() {
+                        #[cfg(ferrous_verif)]
+                        crate::verif::gate("sweeper:after_collect");
+                        
                         let mut shard_guard = shard.write().unwrap();
                         for key in expired_keys {
                             // The index entry may be stale: the key may have been overwritten,
@@ -2535,6 +2538,9 @@ impl StorageEngine {
                     }
                 }
             }
+            
+            #[cfg(ferrous_verif)]
+            crate::verif::SWEEP_PASSES.fetch_add(1, std::sync::atomic::Ordering::SeqCst);
         }
     }
 }
